@@ -224,7 +224,7 @@ class C08(Prop):
 
         for idx, (line, raw) in enumerate(zip(case["lines"], obs)):
             t = line.split()
-            if raw == "bad-op":
+            if raw == "bad-op" or t[0] == "reenter":
                 continue
             if t[0] == "cfg" and len(t) in (7, 8, 9):
                 gate, enabled, thr, tmo = (t[1] if t[1] in GATES else "and"), t[2] == "1", int(t[3]), int(t[4])
